@@ -26,6 +26,7 @@ import (
 	"log/slog"
 	"os"
 	"path/filepath"
+	"runtime"
 	"sort"
 	"sync"
 	"sync/atomic"
@@ -435,7 +436,14 @@ func pairsCoq(ps []pairNN) string {
 }
 
 // reopen the reported checkpoint and scan it
-func (j *recJob) OperatorCheckpointComplete(ctx context.Context, req *snapshotpb.OperatorCheckpoint) error {
+func (j *recJob) OperatorCheckpointComplete(ctx context.Context, req *snapshotpb.OperatorCheckpoint) (err error) {
+	defer func() {
+		if p := recover(); p != nil { // the reported checkpoint cannot be reopened: observed as an empty content
+			j.rec.add(fmt.Sprintf("ECkpt %d %s %s %s", req.CheckpointId, hx.CoqList(nil, "N"), pairsCoq(nil), pairsCoq(nil)),
+				map[string]any{"ckpt": req.CheckpointId, "unreadable": fmt.Sprint(p)}, true)
+			err = nil
+		}
+	}()
 	fs := storage.NewLocalFilesystem(filepath.Join(j.dir, req.OperatorId))
 	db := dkv.Open(dkv.DBOptions{FileSystem: fs}, []recovery.CheckpointHandle{{CheckpointID: req.CheckpointId, URI: req.DkvFileUri}})
 	var evids []uint64
@@ -488,10 +496,11 @@ type sender struct {
 }
 
 var (
-	runMu   sync.RWMutex
-	runSnd  map[string]*sender
-	runQuit chan struct{}
-	caseSeq atomic.Int64
+	runMu      sync.RWMutex
+	runSnd     map[string]*sender
+	runQuit    chan struct{}
+	caseSeq    atomic.Int64
+	stuckCases atomic.Int64
 )
 
 func hook(name string, args ...any) {
@@ -513,13 +522,18 @@ func hook(name string, args ...any) {
 		select {
 		case <-s.release:
 		case <-quit:
+			runtime.Goexit() // the case is over: the held sender never reaches the event loop
 		}
 	}
 }
 
-const watchdog = 8 * time.Second
+const watchdog = 6 * time.Second
 
 func (eng) Execute(mode string, c *hx.Case) (*hx.Result, error) {
+	if stuckCases.Load() >= 3 {
+		// the implementation hung three times already (each hang leaves a spinning or blocked operator behind)
+		return &hx.Result{Term: "AlignCase 1%nat 0 false [OStuck 9]", Tags: []string{"STUCK-skipped"}, Observed: "skipped after three hangs"}, nil
+	}
 	n := pInt(c, "n", 2)
 	maxSize := pInt(c, "max_size", 0)
 	delay := pBool(c, "delay")
@@ -582,12 +596,12 @@ func (eng) Execute(mode string, c *hx.Case) (*hx.Result, error) {
 		}()
 	}
 	defer func() {
-		close(quit)
 		opr.Stop()
 		select {
 		case <-started:
 		case <-time.After(watchdog):
 		}
+		close(quit)
 	}()
 
 	var obs []string
@@ -597,6 +611,7 @@ func (eng) Execute(mode string, c *hx.Case) (*hx.Result, error) {
 		obs = append(obs, fmt.Sprintf("OStuck %d", what))
 		jobs = append(jobs, map[string]any{"stuck": what, "op": o})
 		tags["STUCK"] = true
+		stuckCases.Add(1)
 	}
 	evTerm := func() (string, []any) {
 		e, j := rec.take()
